@@ -147,16 +147,22 @@ class ComponentLevel2( ComponentLevel1 ):
 
         # ( "attr", names ): s.N used as an index or a slice bound. It is a
         # constant if this instance holds an int / Bits value there
+        # ( "dotted", code ): Idx.VALID, an attribute of a closure / global
+        # variable, likewise
         def attr_const( x ):
-          o = s
-          for nm in x[1]:
-            o = getattr( o, nm, None )
+          if x[0] == "dotted":
+            try:    o = eval( x[1], _globals, _closure )
+            except Exception: o = None
+          else:
+            o = s
+            for nm in x[1]:
+              o = getattr( o, nm, None )
           return int(o) if isinstance( o, (int, Bits) ) else "*"
 
-        if isinstance( current_idx, tuple ) and current_idx[0] == "attr":
+        if isinstance( current_idx, tuple ) and current_idx[0] in ( "attr", "dotted" ):
           current_idx = attr_const( current_idx )
         elif isinstance( current_idx, slice ):
-          bounds = [ attr_const( b ) if isinstance( b, tuple ) and b[0] == "attr" else b
+          bounds = [ attr_const( b ) if isinstance( b, tuple ) and b[0] in ( "attr", "dotted" ) else b
                      for b in ( current_idx.start, current_idx.stop ) ]
           current_idx = "*" if "*" in [ b for b in bounds if isinstance( b, str ) ] else slice( *bounds )
 
